@@ -46,6 +46,11 @@ func checks() []check {
 			{Name: "default-route-and-primary", Pkg: "daemon", Run: "^TestVerifC12Defaulting$"},
 			{Name: "plugin-parse", Pkg: "plugin/terway", Run: "^TestVerifC12Plugin$"},
 		}},
+		{ID: "C13", Level: "model_checking", Parts: []part{
+			{Name: "generated-configuration", Pkg: "plugin/datapath", Run: "^TestVerifC13Config$"},
+			{Name: "kernel-policy-route", Pkg: "plugin/datapath", Run: "^TestVerifC13Kernel$", Netns: true, ShardsQ: 12, ShardsT: 16},
+			{Name: "kernel-exclusive-eni", Pkg: "plugin/datapath", Run: "^TestVerifC13KernelExclusive$", Netns: true, ShardsQ: 4, ShardsT: 16},
+		}},
 		{ID: "C14", Level: "model_checking", Parts: []part{
 			{Name: "u32v4", Pkg: "pkg/tc", Run: "^TestVerifC14U32v4$"},
 			{Name: "u32v6", Pkg: "pkg/tc", Run: "^TestVerifC14U32v6$"},
